@@ -87,6 +87,9 @@ func (in *Interp) msgArg(v Value) interface{} {
 func (in *Interp) keyFromBytes(v Value, wantPriv bool) (*keySt, bool) {
 	t, ok := opaqueOfBytes(v)
 	if !ok {
+		if !wantPriv {
+			return in.keyFromParts(v)
+		}
 		return nil, false
 	}
 	switch t.Ctor {
@@ -149,6 +152,15 @@ func init() {
 		},
 		"github.com/btcsuite/btcd/btcec.IsCompressedPubKey": func(in *Interp, fr *Frame, a []Value) (Value, bool) {
 			t, ok := opaqueOfBytes(a[0])
+			if !ok && a[0].K == KSlice && a[0].R != nil {
+				if s := a[0].R.(*SliceV).S; len(s) == 2 && s[0].K != KOpaque && s[1].K == KOpaque {
+					if ob, isOb := s[1].R.(*OpaqueBytes); isOb && ob.T != nil && ob.T.Ctor == "pubx" {
+						c := in.Ctx
+						b := s[0].Term(c)
+						return mkSymBool(c.Or(c.Cmp(smt.OpEq, b, c.BV(2, 8)), c.Cmp(smt.OpEq, b, c.BV(3, 8)))), true
+					}
+				}
+			}
 			return mkBool(ok && t.Ctor == "pubraw"), true
 		},
 		"(*github.com/btcsuite/btcd/btcec.PublicKey).SerializeUncompressed": func(in *Interp, fr *Frame, a []Value) (Value, bool) {
